@@ -93,7 +93,7 @@ func cmdCheck(args []string) {
 	var funcsUnder []string
 	for _, name := range cs.Order {
 		con := cs.Funcs[name]
-		if con.Extern {
+		if con.Extern || con.Assumed != "" {
 			continue
 		}
 		if *only != "" && name != *only {
@@ -263,6 +263,15 @@ func cmdCheck(args []string) {
 		clauses += fr.Clauses
 		for _, n := range fr.Notes {
 			addAssume(n)
+		}
+		for _, x := range fr.ByContract {
+			if c := cs.Funcs[x]; c != nil && c.Assumed != "" {
+				var ens []string
+				for _, en := range c.Ensures {
+					ens = append(ens, en.Src)
+				}
+				addAssume(fmt.Sprintf("in-package contract %s ASSUMED, not verified (%s): ensures [%s] modifies [%s]", x, c.Assumed, strings.Join(ens, "; "), strings.Join(c.Modifies, ", ")))
+			}
 		}
 		for _, x := range fr.Externs {
 			c := cs.Funcs[x]
